@@ -281,6 +281,30 @@ P = {
    note=TB + " quick-xml tokenisation / entity unescaping / attribute parsing and zip are outside the model; <f> text and untyped cells are not unescaped by the code and the spec does not ask for it.",
    technique="Coq proof (state-machine induction over event lists; escape-layer arithmetic; UTF-16 codec) + extracted-model correspondence on real files",
    design_ref="5/C19"),
+ "C06": dict(claimed=True,
+   text="Partial by nature. (1) Proof: Properties/C06.v re-exports, one theorem per parser entry point (C06_<reader>_<function>_total, 62 "
+        "theorems generated by tools/gen_c06_v.py from the slices' own property files, same statements, pinned by Check), the totality "
+        "theorems of all models: for EVERY byte string / event list, with no well-formedness hypothesis, the model of the function "
+        "returns Ok or Err — never Panic, never OutOfFuel at a stated fuel linear in the input: compound file (cfb_new, get_chain incl. "
+        "cyclic tables, get_stream), VBA (decompress with output <= 4096 x chunks, dir stream), xls (record iterator, SST with "
+        "capacity bound, strings, sheet loop, cell records, both formula decoders, name tables, merge cells), xlsb (framing, header, "
+        "cell reader, SST, formula decoder), xlsx (A1 scanner, cell loop, strings, formulas, shared-formula translation, merge cells, "
+        "table metadata, workbook part), ods (table reader with row limit, cells, manifest), Range (from_sparse unconditionally; new / "
+        "window / set_value under exactly the conditions the code still needs), date conversions (all 2^64 patterns); plus the "
+        "allocation bound of the chain walk (Totality.v). The header of C06.v lists, per Rust function, the theorem, the quantifier, the "
+        "residual hypotheses, and the entry points WITHOUT a theorem (zip / quick-xml internals, Xls::parse_workbook and "
+        "Xlsb::read_workbook as wholes, read_styles, pictures, the Sheets dispatch, real time and memory). (2) Fault enumeration "
+        "through the public API (tools/props/c06.py, tools/mutate.py): structure-aware single and multi faults — every record kind x "
+        "truncation length x boundary value of each declared length / count / offset / index, cyclic and dangling chains from every "
+        "chain start, dropped / renamed / truncated parts, huge and malformed attribute values, deep nesting — on the fixtures, "
+        "generated workbooks and a committed corpus of 169 minimised witnesses, through all four readers and auto-detection and every "
+        "read call, under a capped allocator relative to the input size, a 2 MiB stack, and a per-case watchdog; a failure is keyed "
+        "file::function::class (no line numbers). Five known findings (sparse or run-length input expanded into a dense result).",
+   note=TB + " The theorems are about the models; the models are tied to the code by the 19 other correspondence checks, whose malformed-input "
+        "profiles compare outcome classes (ok / err / panic) of model and code. C06_serial_total depends on Flocq's four classical axioms. "
+        "The thorough tier's coqchk covers the closure of every slice (about 25 minutes).",
+   technique="Coq proof (totality theorems over all inputs, re-exported from every slice) + structure-aware fault enumeration through the public API",
+   design_ref="5/C06"),
 }
 REASON_TODO = "not claimed yet: model and theorems for this property are still being built (see DESIGN.md section 9)"
 
